@@ -303,6 +303,9 @@ func DrawBlock(c *choice.Stream, cols []ColSpec, rows int) *refproto.Block {
 
 func DrawExceptionChain(c *choice.Stream) []refproto.Exception {
 	n := c.Weighted("exc.depth", 6, 2, 1, 1) + 1
+	if c.Bool("exc.deep", 1, 25) {
+		n = c.Pick("exc.depth.deep", 8, 31, 32, 33, 64, 100, 300) // "of any depth"
+	}
 	codes := []int32{60, 62, 81, 159, 241, 394, 47, 516}
 	out := make([]refproto.Exception, n)
 	for i := range out {
